@@ -41,11 +41,12 @@ struct Cfg
   bool gmt{true};
   time_t start{1718451898};
   bool plant{false};
+  bool aux{false}; // a second rotating sink `app.aux.log` (same configuration) lives in the same directory
 };
 
 struct Op
 {
-  char kind;   // 'W' write, 'R' restart
+  char kind;   // 'W' write, 'R' restart, 'X' write through the second sink (--aux 1)
   int size;    // W: statement size
   long dt;     // seconds added to the clock before the op
   char rmode;  // R: open mode of the new lifetime
@@ -57,8 +58,8 @@ static std::string op_str(std::vector<Op> const& h)
   for (auto const& o : h)
   {
     if (!s.empty()) s += ' ';
-    if (o.kind == 'W')
-      s += "W" + std::to_string(o.size) + "+" + std::to_string(o.dt);
+    if (o.kind == 'W' || o.kind == 'X')
+      s += std::string(1, o.kind) + std::to_string(o.size) + "+" + std::to_string(o.dt);
     else
       s += std::string("R") + o.rmode + "+" + std::to_string(o.dt);
   }
@@ -76,7 +77,7 @@ static std::vector<Op> parse_ops(std::string const& s)
     o.kind = t[0];
     size_t plus = t.find('+');
     o.dt = atol(t.c_str() + plus + 1);
-    if (o.kind == 'W')
+    if (o.kind == 'W' || o.kind == 'X')
       o.size = atoi(t.c_str() + 1);
     else
       o.rmode = t[1];
@@ -174,6 +175,7 @@ struct RFile
 struct Ref
 {
   Cfg const* c;
+  std::string stem{"app"};
   int variant; // 0 = as the properties state; 1 = previous lifetimes' rotated files not adopted (date schemes)
   std::vector<RFile> rotated; // newest first
   std::vector<int> active_ids;
@@ -355,9 +357,9 @@ static std::vector<std::pair<std::string, std::string>> const PLANTED = {
   {"app.7x.log", "UNRELATED 7x\n"}};
 
 // name a reference file gets on disk
-static std::string ref_name(RFile const& f)
+static std::string ref_name(RFile const& f, std::string const& stem = STEM)
 {
-  std::string n = STEM;
+  std::string n = stem;
   if (!f.date.empty()) n += "." + f.date;
   if (f.index > 0) n += "." + std::to_string(f.index);
   return n + ".log";
@@ -390,9 +392,9 @@ static bool compare(Ref const& ref, std::vector<DFile> const& files, std::string
 {
   // predicted files that hold statements of the current epoch (incl. the active one)
   std::map<std::string, std::vector<int>> want;
-  for (auto const& f : ref.rotated) want[ref_name(f)] = f.ids;
-  for (auto const& f : ref.untracked) want[ref_name(f)] = f.ids;
-  want[STEM + ".log"] = ref.active_ids;
+  for (auto const& f : ref.rotated) want[ref_name(f, ref.stem)] = f.ids;
+  for (auto const& f : ref.untracked) want[ref_name(f, ref.stem)] = f.ids;
+  want[ref.stem + ".log"] = ref.active_ids;
   std::map<std::string, std::vector<int>> got;
   for (auto const& f : files)
   {
@@ -404,7 +406,7 @@ static bool compare(Ref const& ref, std::vector<DFile> const& files, std::string
     bool epoch = false;
     for (int id : f.ids)
       if (ref.epoch_ids.count(id)) epoch = true;
-    if (epoch || f.name == STEM + ".log") got[f.name] = f.ids;
+    if (epoch || f.name == ref.stem + ".log") got[f.name] = f.ids;
   }
   // leftovers of a previous epoch inside a predicted file are a violation too (ids must match exactly)
   for (auto const& kv : want)
@@ -476,6 +478,45 @@ static Outcome run_history(Cfg const& c, std::vector<Op> const& h, bool count)
   };
   auto tp = [](time_t t) { return std::chrono::system_clock::time_point{std::chrono::seconds{t}}; };
 
+  // second sink: opened first, three statements written (two rotated files exist when the main sink is opened); it is
+  // never restarted, so its own reference needs no adoption
+  std::unique_ptr<RotatingFileSink> aux;
+  Ref refx;
+  refx.c = &c;
+  refx.variant = 0;
+  refx.stem = STEM + ".aux";
+  int next_id = 1;
+  auto aux_write = [&](int size)
+  {
+    int id = next_id++;
+    sizes[id] = size;
+    char head[16];
+    snprintf(head, sizeof head, "S%05d", id);
+    std::string line = head;
+    line.append(static_cast<size_t>(size) - 7, 'x');
+    line += '\n';
+    refx.write(now, id, size);
+    aux->write_log(nullptr, static_cast<uint64_t>(now) * 1000000000ull, "1", "t", "1", "L", LogLevel::Info, "INFO", "I", nullptr, "", line);
+    aux->flush_sink();
+  };
+  if (c.aux)
+  {
+    refx.start(now, 'a', true);
+    try
+    {
+      aux = std::make_unique<RotatingFileSink>(fs::path{c.dir + "/" + STEM + ".aux.log"}, make_cfg('a'), FileEventNotifier{}, tp(now));
+      for (int k = 0; k < 3; ++k) aux_write(313);
+    }
+    catch (std::exception const& e)
+    {
+      out.ok = false;
+      out.kind = "constructor-threw";
+      out.detail = e.what();
+      out.step = 0;
+      return out;
+    }
+  }
+
   std::unique_ptr<RotatingFileSink> sink;
   try
   {
@@ -489,7 +530,6 @@ static Outcome run_history(Cfg const& c, std::vector<Op> const& h, bool count)
     out.step = 0;
     return out;
   }
-  int next_id = 1;
   if (count) ++g_exec;
   for (size_t i = 0; i < h.size(); ++i)
   {
@@ -512,6 +552,8 @@ static Outcome run_history(Cfg const& c, std::vector<Op> const& h, bool count)
                         line);
         sink->flush_sink();
       }
+      else if (o.kind == 'X')
+        aux_write(o.size);
       else
       {
         sink.reset();
@@ -562,6 +604,18 @@ static Outcome run_history(Cfg const& c, std::vector<Op> const& h, bool count)
       for (auto const& f : files) fprintf(stderr, " %s[%s]", f.name.c_str(), ids_str(f.ids).c_str());
       fprintf(stderr, "  ref0 %s %s\n", ok0 ? "agrees" : "differs:", why.c_str());
     }
+    if (c.aux)
+    {
+      std::string whyx;
+      if (!compare(refx, files, whyx))
+      {
+        out.ok = false;
+        out.kind = "files-of-another-sink-touched";
+        out.detail = whyx;
+        out.step = static_cast<int>(i);
+        return out;
+      }
+    }
     if (v1_alive && !compare(ref[1], files, why1)) v1_alive = false;
     if (v2_alive && !compare(ref[2], files, why1)) v2_alive = false;
     // state key: directory + private fields of the sink
@@ -571,6 +625,11 @@ static Outcome run_history(Cfg const& c, std::vector<Op> const& h, bool count)
       k += std::to_string(sink->_file_size) + "/" + std::to_string(sink->_open_file_timestamp) + "/";
       if (c.freq != "none") k += std::to_string(sink->_next_rotation_time) + "/";
       for (auto const& cf : sink->_created_files) k += cf.base_filename.filename().string() + "." + cf.date_time + "." + std::to_string(cf.index) + ";";
+      if (c.aux)
+      {
+        k += "#" + std::to_string(aux->_file_size) + "/";
+        for (auto const& cf : aux->_created_files) k += cf.base_filename.filename().string() + "." + cf.date_time + "." + std::to_string(cf.index) + ";";
+      }
       if (count) g_states.insert(vf::fnv(k));
       out.state_key = k;
     }
@@ -605,6 +664,7 @@ int main(int argc, char** argv)
   c.gmt = std::string(a.get("--tz", "gmt")) == "gmt";
   c.start = static_cast<time_t>(a.geti("--start", 1718451898));
   c.plant = a.geti("--plant", 0) != 0;
+  c.aux = a.geti("--aux", 0) != 0;
   int const depth = static_cast<int>(a.geti("--depth", 4));
   std::string const alphabet = a.get("--alphabet", "c14");
   if (char const* z = a.get("--zone"))
@@ -619,7 +679,7 @@ int main(int argc, char** argv)
     return "scheme=" + c.scheme + " limit=" + std::to_string(c.limit) + " backups=" + std::to_string(c.backups) +
       " overwrite=" + std::to_string(c.overwrite) + " mode=" + std::string(1, c.mode) + " remove_old=" + std::to_string(c.remove_old) +
       " freq=" + c.freq + " interval=" + std::to_string(c.interval) + " daily=" + c.daily + " tz=" + (c.gmt ? "gmt" : "local") +
-      (a.get("--zone") ? std::string("(") + a.get("--zone") + ")" : "") + " start=" + std::to_string(c.start) + " plant=" + std::to_string(c.plant);
+      (a.get("--zone") ? std::string("(") + a.get("--zone") + ")" : "") + " start=" + std::to_string(c.start) + " plant=" + std::to_string(c.plant) + (c.aux ? " aux=1" : "");
   };
 
   auto emit_viol = [&](std::vector<Op> const& h, Outcome const& o, bool attributed_planted = false)
@@ -652,6 +712,7 @@ int main(int argc, char** argv)
       .b("matches_non_adopting_reference", o.matches_variant1 && a_restart && c.scheme != "index")
       .b("matches_24h_stepping_daily_reference", o.matches_variant2 && c.freq == "daily" && !c.gmt)
       .b("planted_lookalike_files", c.plant)
+      .b("second_sink_in_directory", c.aux)
       .b("clean_without_planted_lookalike_files", attributed_planted)
       .i("max_gap_s", max_dt)
       .emit();
@@ -680,6 +741,7 @@ int main(int argc, char** argv)
     ops.push_back({'R', 0, (c.scheme == "index") ? 0L : 1L, 'a'});
     ops.push_back({'R', 0, 0, 'w'});
     if (c.scheme != "index") ops.push_back({'R', 0, 86400, 'a'});
+    if (c.aux) ops.push_back({'X', 313, 0, 0});
   }
   else
   {
